@@ -1571,6 +1571,11 @@ func (ctx drawContext) drawText(textbox *bo.TextBox, offsetX fl, textOverflow st
 	var offsetY pr.Float
 
 	metrics := textbox.TextLayout.Metrics()
+	if metrics == nil && decoration != 0 {
+		// the text engine does not provide line metrics: decorations cannot be placed
+		logger.WarningLogger.Println("text-decoration is not supported by this text engine: ignored")
+		decoration = 0
+	}
 
 	if decoration&pr.Overline != 0 {
 		thickness := metrics.UnderlineThickness
